@@ -76,7 +76,7 @@ func ProjectType(t cty.Type) J {
 
 // ---- numbers
 
-const qMax = 1 << 16
+const qMax = 1 << 16 // |q| <= 65536, i.e. |value| <= 16384 < 32767
 
 type landmark struct {
 	name string
@@ -111,6 +111,12 @@ func init() {
 	add("mtenth", mustParse("-0.1"))
 	third := new(big.Float).SetPrec(512).Quo(big.NewFloat(1).SetPrec(512), big.NewFloat(3).SetPrec(512))
 	add("third", third)
+	add("i16max", pow2(15, "-1"))
+	add("i16maxp", pow2(15, ""))
+	add("u16max", pow2(16, "-1"))
+	add("u16maxp", pow2(16, ""))
+	add("i16min", neg(pow2(15, "")))
+	add("i16minm", neg(pow2(15, "1")))
 	add("i32max", pow2(31, "-1"))
 	add("i32maxp", pow2(31, ""))
 	add("u32max", pow2(32, "-1"))
